@@ -1279,7 +1279,15 @@ func porcupineModel(p hprogram, obs [][]hobs) (porcupine.Model, []porcupine.Oper
 
 // ---- the test --------------------------------------------------------------
 
+// hangReported: a hung server was reported; rapid's shrinking would re-run
+// programs that hang for a minute each, so every later execution passes at
+// once and the recorded (unshrunk) case stays the finding.
+var hangReported bool
+
 func historyCase(t ev.Failer, c *ev.Collector, p hprogram, porcu bool) {
+	if hangReported {
+		return
+	}
 	obs, log, final, err := runHistory(p)
 	if err != nil {
 		// transport problem or a stall beyond the reply budget: no verdict;
@@ -1312,6 +1320,7 @@ func historyCase(t ev.Failer, c *ev.Collector, p hprogram, porcu bool) {
 		}
 		dropHistServer(p.Spin)
 		if hung != "" {
+			hangReported = true
 			c.Fail(t, "server-hang", fmt.Sprintf("after a concurrent history ended with %q the server did not answer %s on a fresh connection within 45 s although no client was active any more", err.Error(), hung), historyReplay{Program: p})
 		}
 		return
